@@ -387,6 +387,12 @@ class Tr:
                           "<=": "(%s <=? %s)" % (t1, t2), "==": "(%s =? %s)" % (t1, t2), "!=": "(negb (%s =? %s))" % (t1, t2)}[op]
                     return b1 + b2, tm, "bool"
                 if k1 == "peek" and k2 == "peek" and op in ("==", "!="):
+                    # the enum has exactly two values (checked by gen_check.shared_headers): `!= yes` is `== no`;
+                    # a literal goes to the right (== and != are symmetric)
+                    if t1 in ("true", "false") and t2 not in ("true", "false"):
+                        t1, t2 = t2, t1
+                    if op == "!=" and t2 in ("true", "false"):
+                        op, t2 = "==", ("false" if t2 == "true" else "true")
                     tm = "(Bool.eqb %s %s)" % (t1, t2)
                     return b1 + b2, tm if op == "==" else "(negb %s)" % tm, "bool"
                 raise Unsupported("comparison %s on %s, %s" % (op, k1, k2))
@@ -396,6 +402,11 @@ class Tr:
             if op in ("operator!=", "operator=="):
                 b1, t1, k1 = self.E(c["a"][0], st, env)
                 b2, t2, k2 = self.E(c["a"][1], st, env)
+                # == and != are symmetric: end() goes to the right
+                if (k1, k2) == ("liter", "liter") and t1 == "End" and t2 != "End":
+                    t1, t2, b1, b2 = t2, t1, b2, b1
+                if (k1, k2) == ("mit", "mit") and t1 == "None" and t2 != "None":
+                    t1, t2, b1, b2 = t2, t1, b2, b1
                 if k1 == "liter" and k2 == "liter":
                     tm = "(iter_eqb %s %s)" % (t1, t2)
                 elif k1 == "mit" and k2 == "mit":
@@ -796,6 +807,9 @@ class Tr:
                 st[0] = ns
                 return out
             raise Unsupported("++/-- on %s" % show(tgt))
+        if k == "bin" and c["n"] in ("+=", "-=") and len(c["a"]) == 2 and c["a"][1]["k"] == "int" and str(c["a"][1]["n"]) == "1":
+            # x += 1 / x -= 1 on an unsigned counter are ++x / --x
+            return self.X(dict(k="un", t=c["t"], n="pre++" if c["n"] == "+=" else "pre--", a=[c["a"][0]]), st, env)
         if k == "bin" and c["n"] in ("+=", "-=") and len(c["a"]) == 2:
             tgt = c["a"][0]
             b, t, kd = self.E(c["a"][1], st, env)
